@@ -30,6 +30,7 @@ type IncSolver struct {
 	sorts    map[*Sort]bool
 	queries  int
 	cache    map[string]bool
+	loaded   map[string]bool
 }
 
 func newIncSolver(prelude string) (*IncSolver, error) {
@@ -43,7 +44,7 @@ func newIncSolver(prelude string) (*IncSolver, error) {
 	s := &IncSolver{cmd: cmd, in: in, out: bufio.NewReader(out), declared: map[string]bool{}, sorts: map[*Sort]bool{}, cache: map[string]bool{}}
 	io.WriteString(in, s.declare([]*Term{zeroTerm(SSlice), zeroTerm(SIface)}))
 	io.WriteString(in, preludeBase)
-	io.WriteString(in, prelude)
+	s.loaded = map[string]bool{}
 	return s, nil
 }
 
@@ -59,7 +60,11 @@ func (s *IncSolver) Close() {
 func (s *IncSolver) declare(ts []*Term) string {
 	order, _ := collect(ts)
 	var b strings.Builder
-	for _, so := range usedSorts(order) {
+	forms := neededForms(order)
+	defer func() {
+		// definitions go after the sorts they mention
+	}()
+	for _, so := range usedSortsWith(order, forms) {
 		if s.sorts[so] {
 			continue
 		}
@@ -69,6 +74,13 @@ func (s *IncSolver) declare(ts []*Term) string {
 			fmt.Fprintf(&b, " (%s %s)", f.Name, f.Sort.Name)
 		}
 		b.WriteString("))))\n")
+	}
+	for _, f := range forms {
+		if s.loaded != nil && !s.loaded[f.name] {
+			s.loaded[f.name] = true
+			b.WriteString(f.text)
+			b.WriteString("\n")
+		}
 	}
 	for _, t := range order {
 		if (t.Op == "var" || t.Op == "hext") && !s.declared[t.Str] {
@@ -308,6 +320,270 @@ func (d *Discharger) prepare(ob *Obligation) {
 		ob.trivial = false
 		ob.smts = append(ob.smts, sc.Render("", true))
 	}
+	if ob.Cover || len(ob.smts) == 0 {
+		return
+	}
+	// cheaper variants of every chunk, tried first. Each only drops hypotheses, so a
+	// proof of a variant is a proof of the obligation; failing one decides nothing.
+	ob.variants = make([][]string, len(ob.smts))
+	k := 0
+	cases := chunkCases(ob)
+	for i, sc := range scs {
+		if !ob.Cover && sc.Asserts[0].IsFalse() {
+			continue
+		}
+		if !learnMode {
+			sub := &Obligation{Name: ob.Name}
+			okHint := true
+			for _, c := range cases[i] {
+				pc, ok := hintedPC(ob.Name, c.pc)
+				if !ok {
+					okHint = false
+					break
+				}
+				sub.Cases = append(sub.Cases, obCase{pc: pc, goal: c.goal})
+			}
+			if okHint {
+				ob.variants[k] = append(ob.variants[k], obligationScript(sub, d.prelude).Render("", false))
+			}
+		}
+		type vmode struct {
+			depth int
+			light bool
+		}
+		modes := []vmode{{2, true}, {4, true}, {6, true}, {4, false}, {0, true}}
+		if e := os.Getenv("GOVC_DEPTHS"); e != "" {
+			modes = nil
+			for _, x := range strings.Split(e, ",") {
+				n, _ := strconv.Atoi(x)
+				modes = append(modes, vmode{n, true})
+			}
+		}
+		for _, mode := range modes {
+			sub := &Obligation{Name: ob.Name}
+			changed := false
+			for _, c := range cases[i] {
+				pc := c.pc
+				if mode.depth > 0 {
+					pc = relevantPC(pc, c.goal, mode.depth)
+				}
+				if mode.light {
+					var q []*Term
+					for _, t := range pc {
+						if t.Op == "forall" || (t.Op == "=>" && t.Args[1].Op == "forall") {
+							continue
+						}
+						q = append(q, t)
+					}
+					pc = q
+				}
+				if len(pc) != len(c.pc) {
+					changed = true
+				}
+				sub.Cases = append(sub.Cases, obCase{pc: pc, goal: c.goal})
+			}
+			if changed {
+				ob.variants[k] = append(ob.variants[k], obligationScript(sub, d.prelude).Render("", false))
+			}
+		}
+		k++
+	}
+}
+
+// chunkCases mirrors obligationChunks' grouping.
+func chunkCases(ob *Obligation) [][]obCase {
+	n := len(ob.Cases)
+	if n <= 1 {
+		return [][]obCase{ob.Cases}
+	}
+	chunkSize := (n + 2047) / 2048
+	if s := os.Getenv("GOVC_CHUNK"); s != "" {
+		if x, _ := strconv.Atoi(s); x > 0 {
+			chunkSize = x
+		}
+	}
+	var out [][]obCase
+	for i := 0; i < n; i += chunkSize {
+		j := i + chunkSize
+		if j > n {
+			j = n
+		}
+		out = append(out, ob.Cases[i:j])
+	}
+	return out
+}
+
+// relevantPC keeps the hypotheses connected to the goal through shared, rare
+// subterms (terms are hash-consed, so sharing is identity), to the given depth.
+func relevantPC(pc []*Term, goal *Term, depth int) []*Term {
+	sets := make([]map[*Term]bool, len(pc))
+	occ := map[*Term]int{}
+	for i, t := range pc {
+		sets[i] = sigTerms(t)
+		for x := range sets[i] {
+			occ[x]++
+		}
+	}
+	limit := len(pc)/25 + 4 // a subterm occurring in more hypotheses than this is a hub
+	rel := map[*Term]bool{}
+	for x := range sigTerms(goal) {
+		rel[x] = true
+	}
+	in := make([]bool, len(pc))
+	for d := 0; d < depth; d++ {
+		added := false
+		var newly []int
+		for i := range pc {
+			if in[i] {
+				continue
+			}
+			for x := range sets[i] {
+				if rel[x] && occ[x] <= limit {
+					in[i] = true
+					added = true
+					newly = append(newly, i)
+					break
+				}
+			}
+		}
+		for _, i := range newly {
+			for x := range sets[i] {
+				rel[x] = true
+			}
+		}
+		if !added {
+			break
+		}
+	}
+	var out []*Term
+	for i, t := range pc {
+		if in[i] {
+			out = append(out, t)
+		}
+	}
+	return out
+}
+
+var sigCache = map[*Term]map[*Term]bool{}
+
+// sigTerms: the non-ground variables, selections and applications occurring in t.
+func sigTerms(t *Term) map[*Term]bool {
+	if m, ok := sigCache[t]; ok {
+		return m
+	}
+	m := map[*Term]bool{}
+	seen := map[*Term]bool{}
+	var rec func(x *Term)
+	rec = func(x *Term) {
+		if seen[x] || x.ground {
+			return
+		}
+		seen[x] = true
+		switch x.Op {
+		case "var", "hext":
+			if !infraSymbol(x.Str) {
+				m[x] = true
+			}
+		case "select", "sel", "app":
+			m[x] = true
+		}
+		for _, a := range x.Args {
+			rec(a)
+		}
+	}
+	rec(t)
+	sigCache[t] = m
+	return m
+}
+
+// infraSymbol: allocation water marks and whole heaps occur almost everywhere and never select a hypothesis.
+func infraSymbol(s string) bool {
+	return strings.HasPrefix(s, "lw!") || (strings.HasPrefix(s, "H$") && strings.HasSuffix(s, "@0"))
+}
+
+var hintMu sync.Mutex
+
+var symCache = map[*Term]map[string]bool{}
+
+func termSymbols(t *Term) map[string]bool {
+	if m, ok := symCache[t]; ok {
+		return m
+	}
+	m := map[string]bool{}
+	seen := map[*Term]bool{}
+	var rec func(x *Term)
+	rec = func(x *Term) {
+		if seen[x] {
+			return
+		}
+		seen[x] = true
+		switch x.Op {
+		case "var", "hext":
+			m[x.Str] = true
+		case "app":
+			if _, isSpec := specFuncs[x.Str]; !isSpec || preludeIsDeclared(x.Str) {
+				m["app:"+x.Str] = true
+			}
+		}
+		for _, a := range x.Args {
+			rec(a)
+		}
+	}
+	rec(t)
+	symCache[t] = m
+	return m
+}
+
+// preludeIsDeclared: uninterpreted (declare-fun) specification symbols count as symbols;
+// defined ones are just abbreviations.
+func preludeIsDeclared(name string) bool {
+	f, ok := preludeByName[name]
+	return ok && strings.HasPrefix(f.text, "(declare-fun")
+}
+
+func obligationChunksLight(ob *Obligation, prelude string) []*Script {
+	lightCase := func(c obCase) (obCase, bool) {
+		var pc []*Term
+		dropped := false
+		for _, t := range c.pc {
+			if t.Op == "forall" || (t.Op == "=>" && t.Args[1].Op == "forall") {
+				dropped = true
+				continue
+			}
+			pc = append(pc, t)
+		}
+		return obCase{pc: pc, goal: c.goal}, dropped
+	}
+	var out []*Script
+	n := len(ob.Cases)
+	chunkSize := (n + 2047) / 2048
+	if n <= 1 {
+		chunkSize = 1
+	}
+	if s := os.Getenv("GOVC_CHUNK"); s != "" {
+		if x, _ := strconv.Atoi(s); x > 0 {
+			chunkSize = x
+		}
+	}
+	for i := 0; i < n; i += chunkSize {
+		j := i + chunkSize
+		if j > n {
+			j = n
+		}
+		any := false
+		sub := &Obligation{Name: ob.Name}
+		for _, c := range ob.Cases[i:j] {
+			lc, d := lightCase(c)
+			any = any || d
+			sub.Cases = append(sub.Cases, lc)
+		}
+		if !any {
+			out = append(out, nil)
+			continue
+		}
+		out = append(out, obligationScript(sub, prelude))
+	}
+	return out
 }
 
 func (d *Discharger) discharge(ob *Obligation) {
@@ -335,12 +611,7 @@ func (d *Discharger) discharge(ob *Obligation) {
 	start := time.Now()
 	var mu sync.Mutex
 	var wg sync.WaitGroup
-	type chunkRes struct {
-		answer, backend, model, file string
-		agree                         []string
-		outs                          map[string]string
-	}
-	crs := make([]chunkRes, len(ob.smts))
+	crs := make([]chunkResT, len(ob.smts))
 	for ci, text := range ob.smts {
 		wg.Add(1)
 		go func(ci int, text string) {
@@ -352,6 +623,35 @@ func (d *Discharger) discharge(ob *Obligation) {
 		}(ci, text)
 	}
 	wg.Wait()
+	if learnMode && !ob.Cover {
+		// record unsat cores of the chunks that needed more than the cheap variants
+		cases := chunkCases(ob)
+		var lw sync.WaitGroup
+		for ci := range crs {
+			if ci >= len(cases) || len(cases[ci]) != 1 || (crs[ci].answer == "unsat" && crs[ci].secs < 1.5) {
+				continue
+			}
+			lw.Add(1)
+			go func(ci int) {
+				defer lw.Done()
+				c := cases[ci][0]
+				var light []*Term
+				for _, t := range c.pc {
+					if t.Op == "forall" || (t.Op == "=>" && t.Args[1].Op == "forall") {
+						continue
+					}
+					light = append(light, t)
+				}
+				if d.learnCore(ob, obCase{pc: light, goal: c.goal}, 240) || d.learnCore(ob, c, 900) {
+					crs[ci].answer = "unsat"
+					if crs[ci].backend == "" {
+						crs[ci].backend = backends[0].name
+					}
+				}
+			}(ci)
+		}
+		lw.Wait()
+	}
 	res.Seconds = time.Since(start).Seconds()
 	res.Answer = want
 	if ob.Cover {
@@ -403,10 +703,14 @@ type chunkResT = struct {
 	answer, backend, model, file string
 	agree                         []string
 	outs                          map[string]string
+	light                         bool
+	quick                         bool // decided by the first cheap variant
+	secs                          float64
 }
 
-func (d *Discharger) solveOne(ob *Obligation, ci int, text string) chunkResT {
-	var cr chunkResT
+func (d *Discharger) solveOne(ob *Obligation, ci int, text string) (cr chunkResT) {
+	t0 := time.Now()
+	defer func() { cr.secs = time.Since(t0).Seconds() }()
 	cr.outs = map[string]string{}
 	base := sanitize(ob.Name)
 	if len(ob.smts) > 1 {
@@ -473,6 +777,44 @@ func (d *Discharger) solveOne(ob *Obligation, ci int, text string) chunkResT {
 			}
 		}
 		return a, first, agree
+	}
+	// stage 0: cheaper variants (fewer hypotheses), briefly each
+	if ci < len(ob.variants) {
+		for vi, vt := range ob.variants[ci] {
+			lf := filepath.Join(d.dir, fmt.Sprintf("%s.v%d.smt2", base, vi))
+			os.WriteFile(lf, []byte(vt), 0o644)
+			d.sem <- struct{}{}
+			a0, _ := runBackend(context.Background(), backends[0], lf, 3)
+			<-d.sem
+			if a0 != "unsat" {
+				continue
+			}
+			cr.answer = "unsat"
+			cr.backend = backends[0].name
+			cr.agree = []string{backends[0].name}
+			cr.light = true
+			cr.quick = vi == 0
+			if !d.thorough {
+				return cr
+			}
+			lfc := filepath.Join(d.dir, fmt.Sprintf("%s.v%d.cvc5.smt2", base, vi))
+			os.WriteFile(lfc, []byte("(set-logic ALL)\n"+vt), 0o644)
+			d.sem <- struct{}{}
+			a1, _ := runBackend(context.Background(), backends[2], lfc, 20)
+			<-d.sem
+			if a1 == "unsat" {
+				cr.agree = append(cr.agree, backends[2].name)
+				return cr
+			}
+			d.sem <- struct{}{}
+			a2, _ := runBackend(context.Background(), backends[1], lf, 20)
+			<-d.sem
+			if a2 == "unsat" {
+				cr.agree = append(cr.agree, backends[1].name)
+				return cr
+			}
+			break
+		}
 	}
 	// stage 1: the usually fastest back end alone, briefly
 	var got []ans
